@@ -1,4 +1,4 @@
-/- Helper lemmas for C19 (`Model/Cache.lean`). -/
+/- Helper lemmas for C19 (`Model/Cache.lean`).  `dirs` (directories planted in the cache directory) is arbitrary everywhere. -/
 import Rustic.Model.Cache
 import Rustic.Lemmas.Backends
 namespace Rustic.Cache
@@ -26,86 +26,167 @@ theorem fget_fdel_none {c : FS} {q : Path} (p : Path) (h : fget c q = none) : fg
   · subst e; exact fget_fdel_same c q
   · rwa [fget_fdel_ne c e]
 
-theorem cReadFull_cWrite {L : Nat} (c : FS) {t t' : FileType} {id id' : Name} (hl : id.length = L) (hl' : id'.length = L)
-    (d : Bytes) :
-    cReadFull (cWrite c t id d) t' id' = if t' = t ∧ id' = id then some d else cReadFull c t' id' := by
-  unfold cReadFull cWrite
-  by_cases e : t' = t ∧ id' = id
-  · obtain ⟨e1, e2⟩ := e; subst e1; subst e2; simp [fget_fput_same]
-  · have hne : cpath t' id' ≠ cpath t id := fun h => e (cpath_inj h)
-    have hnt : cpath t' id' ≠ ctmp t id := cpath_ne_ctmp (by rw [hl, hl'])
-    rw [fget_fput_ne _ d hne, fget_fdel_ne _ hnt, fget_fput_ne _ d hnt]
-    simp [e]
+/-! ### cache reads in terms of `cHit` -/
 
-theorem cReadFull_cRemove (c : FS) (t t' : FileType) (id id' : Name) :
-    cReadFull (cRemove c t id) t' id' = if t' = t ∧ id' = id then none else cReadFull c t' id' := by
-  unfold cReadFull cRemove
-  by_cases e : t' = t ∧ id' = id
-  · obtain ⟨e1, e2⟩ := e; subst e1; subst e2; simp [fget_fdel_same]
-  · have hne : cpath t' id' ≠ cpath t id := fun h => e (cpath_inj h)
-    rw [fget_fdel_ne _ hne]; simp [e]
+theorem cHit_of_dir {dirs : List Path} (c : FS) {t : FileType} {id : Name} (h : hasDir dirs (cpath t id) = true) :
+    cHit dirs c t id = none := by
+  simp [cHit, h]
 
-theorem cReadFull_removeAll_some {c : FS} {t t' : FileType} {id' : Name} {d : Bytes} (es : List (Name × Nat))
-    (h : cReadFull (removeAll c t es) t' id' = some d) : cReadFull c t' id' = some d := by
+theorem cHit_some {dirs : List Path} {c : FS} {t : FileType} {id : Name} {d : Bytes} (h : cHit dirs c t id = some d) :
+    hasDir dirs (cpath t id) = false ∧ fget c (cpath t id) = some d := by
+  unfold cHit at h
+  by_cases hd : hasDir dirs (cpath t id) = true
+  · simp [hd] at h
+  · simp [hd] at h; exact ⟨by simpa using hd, h⟩
+
+/-- `Cache::read_full` answers `Ok(Some(d))` exactly when a regular file with bytes `d` is at the entry path. -/
+theorem cReadFull_hit_iff (dirs : List Path) (c : FS) (t : FileType) (id : Name) (d : Bytes) :
+    cReadFull dirs c t id = .hit d ↔ cHit dirs c t id = some d := by
+  unfold cReadFull cHit
+  by_cases hd : hasDir dirs (cpath t id) = true
+  · simp [hd]
+  · simp only [hd, Bool.false_eq_true, if_false]
+    cases fget c (cpath t id) <;> simp
+
+theorem cReadFull_dir {dirs : List Path} (c : FS) {t : FileType} {id : Name} (h : hasDir dirs (cpath t id) = true) :
+    cReadFull dirs c t id = .error := by
+  simp [cReadFull, h]
+
+theorem cReadPartial_dir {dirs : List Path} (c : FS) {t : FileType} {id : Name} (h : hasDir dirs (cpath t id) = true)
+    (off : Nat) {len : Nat} (hlen : 0 < len) : cReadPartial dirs c t id off len = .error := by
+  have : len ≠ 0 := by omega
+  simp [cReadPartial, h, this]
+
+/-- a ranged cache read in terms of `cHit` (non-empty range) -/
+theorem cReadPartial_eq (dirs : List Path) (c : FS) (t : FileType) (id : Name) (off : Nat) {len : Nat} (hlen : 0 < len) :
+    cReadPartial dirs c t id off len =
+      match cHit dirs c t id with
+      | some d => if off + len ≤ d.length then .hit ((d.drop off).take len) else .error
+      | none => if hasDir dirs (cpath t id) then .error else .miss := by
+  have hne : len ≠ 0 := by omega
+  unfold cReadPartial cHit
+  by_cases hd : hasDir dirs (cpath t id) = true
+  · simp [hd, hne]
+  · simp only [hd, Bool.false_eq_true, if_false]
+    cases fget c (cpath t id) <;> simp [hne]
+
+/-! ### cache writes and removals -/
+
+/-- the cache write of `(t, id)` reaches the entry path: no directory at the temp path nor at the entry path -/
+def writes (dirs : List Path) (t : FileType) (id : Name) : Bool :=
+  !hasDir dirs (ctmp t id) && !hasDir dirs (cpath t id)
+
+/-- After `Cache::write_bytes` every entry is as before, except the written one, which holds the new bytes — if the
+write got through (otherwise it is as before too). -/
+theorem cHit_cWrite {L : Nat} (dirs : List Path) (c : FS) {t t' : FileType} {id id' : Name} (hl : id.length = L)
+    (hl' : id'.length = L) (d : Bytes) :
+    cHit dirs (cWrite dirs c t id d) t' id' =
+      if (t' = t ∧ id' = id) ∧ writes dirs t id = true then some d else cHit dirs c t' id' := by
+  have hnt : cpath t' id' ≠ ctmp t id := cpath_ne_ctmp (by rw [hl, hl'])
+  unfold cWrite
+  by_cases h1 : hasDir dirs (ctmp t id) = true
+  · simp [h1, writes]
+  · by_cases h2 : hasDir dirs (cpath t id) = true
+    · simp only [h1, h2, Bool.false_eq_true, if_false, if_true, writes, Bool.not_true, Bool.and_false, and_false]
+      unfold cHit
+      rw [fget_fput_ne _ d hnt]
+    · simp only [h1, h2, Bool.false_eq_true, if_false, writes, Bool.not_false, Bool.and_self, and_true]
+      by_cases e : t' = t ∧ id' = id
+      · obtain ⟨e1, e2⟩ := e; subst e1; subst e2
+        simp [cHit, h2, cWriteFile, fget_fput_same]
+      · have hne : cpath t' id' ≠ cpath t id := fun h => e (cpath_inj h)
+        simp only [e, if_false]
+        unfold cHit cWriteFile
+        rw [fget_fput_ne _ d hne, fget_fdel_ne _ hnt, fget_fput_ne _ d hnt]
+
+theorem cHit_cRemove (dirs : List Path) (c : FS) (t t' : FileType) (id id' : Name) :
+    cHit dirs (cRemove dirs c t id) t' id' = if t' = t ∧ id' = id then none else cHit dirs c t' id' := by
+  unfold cRemove
+  by_cases e : t' = t ∧ id' = id
+  · obtain ⟨e1, e2⟩ := e; subst e1; subst e2
+    by_cases h : hasDir dirs (cpath t' id') = true
+    · simp [h, cHit]
+    · simp [h, cHit, fget_fdel_same]
+  · have hne : cpath t' id' ≠ cpath t id := fun h => e (cpath_inj h)
+    by_cases h : hasDir dirs (cpath t id) = true
+    · simp [h, e]
+    · simp only [h, Bool.false_eq_true, if_false, e]
+      unfold cHit
+      rw [fget_fdel_ne _ hne]
+
+/-- `Cache::remove` only deletes. -/
+theorem cHit_cRemove_some {dirs : List Path} {c : FS} {t t' : FileType} {id id' : Name} {d : Bytes}
+    (h : cHit dirs (cRemove dirs c t id) t' id' = some d) : cHit dirs c t' id' = some d := by
+  rw [cHit_cRemove] at h
+  by_cases e : t' = t ∧ id' = id
+  · simp [e] at h
+  · simpa [e] using h
+
+theorem cHit_removeAll_some {dirs : List Path} {c : FS} {t t' : FileType} {id' : Name} {d : Bytes} (es : List (Name × Nat))
+    (h : cHit dirs (removeAll dirs c t es) t' id' = some d) : cHit dirs c t' id' = some d := by
   induction es generalizing c with
   | nil => exact h
-  | cons e rest ih =>
-    have := ih (c := cRemove c t e.1) h
-    unfold cReadFull cRemove at this
-    exact fget_fdel_some this
+  | cons e rest ih => exact cHit_cRemove_some (ih (c := cRemove dirs c t e.1) h)
 
-theorem cReadFull_removeAll_none_of_none {c : FS} {t t' : FileType} {id' : Name} (es : List (Name × Nat))
-    (h : cReadFull c t' id' = none) : cReadFull (removeAll c t es) t' id' = none := by
-  induction es generalizing c with
-  | nil => exact h
-  | cons e rest ih =>
-    apply ih
-    unfold cReadFull at h ⊢
-    unfold cRemove
-    exact fget_fdel_none _ h
+theorem cHit_removeAll_none_of_none {dirs : List Path} {c : FS} {t t' : FileType} {id' : Name} (es : List (Name × Nat))
+    (h : cHit dirs c t' id' = none) : cHit dirs (removeAll dirs c t es) t' id' = none := by
+  cases h' : cHit dirs (removeAll dirs c t es) t' id' with
+  | none => rfl
+  | some d => rw [cHit_removeAll_some es h'] at h; cases h
 
-theorem removeAll_removes {c : FS} {t : FileType} {es : List (Name × Nat)} {e : Name × Nat} (he : e ∈ es) :
-    cReadFull (removeAll c t es) t e.1 = none := by
+theorem removeAll_removes {dirs : List Path} {c : FS} {t : FileType} {es : List (Name × Nat)} {e : Name × Nat} (he : e ∈ es) :
+    cHit dirs (removeAll dirs c t es) t e.1 = none := by
   induction es generalizing c with
   | nil => cases he
   | cons x rest ih =>
     rcases List.mem_cons.1 he with h | h
     · subst h
-      show cReadFull (removeAll (cRemove c t e.1) t rest) t e.1 = none
-      apply cReadFull_removeAll_none_of_none
-      unfold cReadFull cRemove
-      exact fget_fdel_same _ _
+      show cHit dirs (removeAll dirs (cRemove dirs c t e.1) t rest) t e.1 = none
+      apply cHit_removeAll_none_of_none
+      rw [cHit_cRemove]; simp
     · exact ih h
 
-theorem cEntry_cpath {L : Nat} (t : FileType) {id : Name} (hn : isCacheName L id = true) (d : Bytes) :
-    cEntry L t (cpath t id, d) = some (id, d.length) := by
-  simp [cEntry, cpath, hn]
+/-! ### the cache listing -/
 
-theorem mem_cList {L : Nat} {c : FS} {t : FileType} {id : Name} {d : Bytes} (hn : isCacheName L id = true)
-    (h : cReadFull c t id = some d) : (id, d.length) ∈ cList L c t := by
+theorem cEntry_cpath {L : Nat} {dirs : List Path} (t : FileType) {id : Name} (hn : isCacheName L id = true) (d : Bytes)
+    (hd : hasDir dirs (cpath t id) = false) : cEntry L dirs t (cpath t id, d) = some (id, d.length) := by
+  have hd' : hasDir dirs [t.dirname, List.take 2 id, id] = false := hd
+  simp [cEntry, cpath, hn, hd']
+
+/-- a directory is never a cache entry (`is_file`) -/
+theorem cEntry_dir {L : Nat} {dirs : List Path} (t : FileType) {p : Path} (d : Bytes) (hd : hasDir dirs p = true) :
+    cEntry L dirs t (p, d) = none := by
+  unfold cEntry
+  split
+  · simp [hd]
+  · rfl
+
+theorem mem_cList {L : Nat} {dirs : List Path} {c : FS} {t : FileType} {id : Name} {d : Bytes}
+    (hn : isCacheName L id = true) (h : cHit dirs c t id = some d) : (id, d.length) ∈ cList L dirs c t := by
+  obtain ⟨hd, hf⟩ := cHit_some h
   unfold cList
   rw [List.mem_filterMap]
-  exact ⟨(cpath t id, d), mem_of_fget h, cEntry_cpath t hn d⟩
+  exact ⟨(cpath t id, d), mem_of_fget hf, cEntry_cpath t hn d hd⟩
 
 /-- What survives a clean-up has the size the listing reports for that id. -/
-theorem removeNotInList_survivor {L : Nat} {c : FS} {t : FileType} {list : List (Name × Nat)} {id : Name} {d : Bytes}
-    (hn : isCacheName L id = true) (h : cReadFull (removeNotInList L c t list) t id = some d) :
+theorem removeNotInList_survivor {L : Nat} {dirs : List Path} {c : FS} {t : FileType} {list : List (Name × Nat)} {id : Name}
+    {d : Bytes} (hn : isCacheName L id = true) (h : cHit dirs (removeNotInList L dirs c t list) t id = some d) :
     sizeOf? list id = some d.length := by
   unfold removeNotInList at h
-  have h0 := cReadFull_removeAll_some _ h
+  have h0 := cHit_removeAll_some _ h
   have hm := mem_cList hn h0
   by_cases hk : keepEntry list (id, d.length) = true
   · simpa [keepEntry] using hk
-  · have : (id, d.length) ∈ (cList L c t).filter (fun e => !keepEntry list e) := by
+  · have : (id, d.length) ∈ (cList L dirs c t).filter (fun e => !keepEntry list e) := by
       rw [List.mem_filter]; exact ⟨hm, by simp [hk]⟩
-    have := removeAll_removes (c := c) (t := t) this
+    have := removeAll_removes (dirs := dirs) (c := c) (t := t) this
     simp only at this
     rw [this] at h; cases h
 
 /-- The clean-up only deletes. -/
-theorem removeNotInList_sub {L : Nat} {c : FS} {t t' : FileType} {list : List (Name × Nat)} {id : Name} {d : Bytes}
-    (h : cReadFull (removeNotInList L c t list) t' id = some d) : cReadFull c t' id = some d :=
-  cReadFull_removeAll_some _ h
+theorem removeNotInList_sub {L : Nat} {dirs : List Path} {c : FS} {t t' : FileType} {list : List (Name × Nat)} {id : Name}
+    {d : Bytes} (h : cHit dirs (removeNotInList L dirs c t list) t' id = some d) : cHit dirs c t' id = some d :=
+  cHit_removeAll_some _ h
 
 theorem isCacheName_length {L : Nat} {id : Name} (h : isCacheName L id = true) : id.length = L := by
   simp [isCacheName] at h; exact h.1
